@@ -85,7 +85,64 @@ def check_fni(recs):
             f"FILE_NOTIFY_INFORMATION round trip: record {bad} encoded as {exp[bad] if bad < len(exp) else None!r} decoded as {got[bad] if bad < len(got) else None!r} ({len(exp)} records encoded, {len(got)} decoded)",
             "fni-roundtrip" + (":bom" if bad < len(exp) and exp[bad][1][:1] in ("﻿", "￾") else ""),
         )
+    check_read_events(w, recs, buf)
     return len(recs) >= 2 or any(n[:1] in ("﻿", "￾") or len(n) > 127 for _, n in recs), ["roundtrip:fni"] + (["bom-name"] if any(n[:1] in ("﻿", "￾") for _, n in recs) else [])
+
+
+def check_read_events(w, recs, buf):
+    """The same records through the whole read path: winapi.read_events() over a stand-in ReadDirectoryChangesW that
+    fills the caller's buffer; plus its two error exits (operation aborted: nothing; watched directory deleted: the one
+    record the library encodes itself)."""
+    import ctypes
+
+    saved = (w.ReadDirectoryChangesW, w.GetFinalPathNameByHandleW)
+    real_read_events = w.read_events
+
+    def read_events(*a, **k):
+        try:
+            return real_read_events(*a, **k)
+        except Exception as ex:  # noqa: BLE001 - none of the three situations below may end in an exception
+            raise Violation(f"winapi.read_events() raised {ex!r}", "fni-read-events:" + type(ex).__name__) from None
+
+    try:
+        if len(buf) <= w.BUFFER_SIZE:
+
+            def fill(handle, pbuf, size, recursive, flags, pn, a, b):
+                ctypes.memmove(pbuf._obj, buf, len(buf))
+                pn._obj.value = len(buf)
+
+            w.ReadDirectoryChangesW = fill
+            got = read_events(1, "C:\\w", recursive=True)
+            exp = [w.WinAPINativeEvent(a, n) for a, n in recs]
+            if got != exp:
+                bad = next((i for i, (g, e) in enumerate(zip(got or [], exp)) if g != e), min(len(got or []), len(exp)))
+                raise Violation(f"winapi.read_events(): record {bad} of {len(exp)} encoded as {exp[bad] if bad < len(exp) else None!r} came out as {(got[bad] if got and bad < len(got) else None)!r}", "fni-read-events")
+
+        def aborted(*a):
+            e = OSError("operation aborted")
+            e.winerror = w.ERROR_OPERATION_ABORTED
+            raise e
+
+        w.ReadDirectoryChangesW = aborted
+        got = read_events(1, "C:\\w", recursive=True)
+        if got != []:
+            raise Violation(f"winapi.read_events() after ERROR_OPERATION_ABORTED returned {got!r}, expected no records", "fni-read-events")
+
+        def failed(*a):
+            e = OSError("access denied")
+            e.winerror = 5
+            raise e
+
+        def final_path(handle, pbuf, size, flags):
+            pbuf.value = "\\Device\\elsewhere"
+
+        w.ReadDirectoryChangesW = failed
+        w.GetFinalPathNameByHandleW = final_path
+        got = read_events(1, "C:\\w", recursive=True)
+        if not (isinstance(got, list) and len(got) == 1 and got[0].is_removed_self):
+            raise Violation(f"winapi.read_events() for a watched directory that was deleted returned {got!r}, expected the one 'removed self' record", "fni-read-events")
+    finally:
+        w.ReadDirectoryChangesW, w.GetFinalPathNameByHandleW = saved
 
 
 @st.composite
